@@ -15,7 +15,7 @@ from . import fitsim
 
 PROPERTY = "C10"
 TIERS = {
-    "quick": {"runs": 400, "budget_s": 110, "chunk": 4},
+    "quick": {"runs": 1200, "budget_s": 110, "chunk": 4},
     "thorough": {"runs": 12000, "budget_s": 900, "chunk": 8},
 }
 REQUIRED_PROBES = {
